@@ -7,6 +7,7 @@
    (arguments are byte strings and integers of the Rust types). All are met by the toy scheme
    (Examples below) and checked at run time on every key and signature the harness sees. *)
 Require Import Enr.Bytes Enr.Consts Enr.Rlp Enr.SortedMap Enr.Keccak Enr.Record Enr.Update Enr.Spec Enr.Toy.
+Require Import EnrProofs.Thm_CrossValid.
 Require Import EnrProofs.WellFormedLemmas EnrProofs.Thm_Valid EnrProofs.Thm_Update.
 Open Scope N_scope.
 
@@ -108,3 +109,13 @@ Example toy_history_runs :
   | _ => False
   end.
 Proof. vm_compute. repeat split. Qed.
+
+(* the last sentence of the property with the hypotheses on the key discharged: after a successful update made with key k
+   the public-key accessor returns k's public key; node id and signature are k's; the record verifies and is Valid *)
+Theorem rekeyed_record : forall (c : crypto) kt r o k sg x r',
+  Valid c kt r -> op_ok o -> key_bytes_ok k -> KeyOk c kt k -> GoodSigner c k sg ->
+  step c kt r o k sg = (Ok x, r') ->
+  public_key c kt r' = Ok (sk_pub k) /\ nid r' = node_id_of (sk_pub k) /\
+  verify_v4 c (sk_pub k) (signed_payload r') (sig r') = true /\ verify c kt r' = Ok true /\ Valid c kt r'.
+Proof. exact Thm_CrossValid.rekeyed_record. Qed.
+Print Assumptions rekeyed_record.
